@@ -16,17 +16,17 @@ import (
 
 // jobHist is the per-history state of the C08 worker.
 type jobHist struct {
-	jw   *JWorld
-	h    *server.VHist
-	sp   JobSpec
-	id   string
-	jb   *job
-	jb2  *job // the job object of the second trigger (Mixed)
+	jw  *JWorld
+	h   *server.VHist
+	sp  JobSpec
+	id  string
+	jb  *job
+	jb2 *job // the job object of the second trigger (Mixed)
 	// failedFull: a run of the fullsync trigger failed midway at some point of this history
 	failedFull bool
-	chk  *server.VCheck
-	viol []engine.Violation
-	last string
+	chk        *server.VCheck
+	viol       []engine.Violation
+	last       string
 }
 
 func (jh *jobHist) cfgClass() string {
@@ -552,7 +552,9 @@ func vReplayJob(task engine.SeqTask) (res engine.SeqResult) {
 	}
 	// a restart is meant to change nothing: mark the state right behind it, or the search would never go on from there
 	if n := len(task.Hist); n > 0 {
-		var lo struct{ K string `json:"k"` }
+		var lo struct {
+			K string `json:"k"`
+		}
 		_ = json.Unmarshal(task.Hist[n-1], &lo)
 		if lo.K == "restart" {
 			res.Key += "|just-restarted"
